@@ -435,6 +435,22 @@ func c08SCIONInputs(dstPort uint16) func(r *ev.Run, rng *rand.Rand, e *c08Env) [
 				add("scion-bitflips", b)
 			}
 		}
+		// host addresses of non-IP types and lengths in otherwise consistent packets
+		for _, t := range []slayers.AddrType{0, 1, 2, 3, 4, 5, 6, 7, 8, 12, 15} {
+			for side := 0; side < 2; side++ {
+				t := t
+				p := c08SCIONBase(e, rng, int(t)%4, dstPort, ntp())
+				raw := randBytes(rng, t.Length())
+				if side == 0 {
+					p.RawSrcType, p.RawSrc = &t, raw
+				} else {
+					p.RawDstType, p.RawDst = &t, raw
+				}
+				if b, err := p.Serialize(); err == nil {
+					add("scion-non-ip-host-address", b)
+				}
+			}
+		}
 		// special paths
 		for _, set := range []bool{true, false} {
 			p := c08SCIONBase(e, rng, 0, dstPort, ntp())
